@@ -118,6 +118,24 @@ Definition w_recreate : list op :=
 (* the root directory can be removed *)
 Definition w_root_op : list op := [Rmdir []; Exists []].
 
+(* clean (data-synced) file, prefix shared by the rename witnesses below *)
+Definition clean_file_d_a : list op :=
+  [Mkdir [4]; Mkdir [6]; SyncDir []; O_RWC 1 [4; 1]; WriteAt 1 0 [65; 66] false; SyncAll 1; Close 1].
+(* cross-directory rename out of a directory whose entry for the file is not durable: after the
+   destination's sync_dir the old name is a file again *)
+Definition w_rename_cross_resurrect : list op :=
+  clean_file_d_a ++ [Rename [4; 1] [6; 1]; Exists [4; 1]; SyncDir [6]; Exists [4; 1]].
+(* rmdir does not see a file renamed into the directory *)
+Definition w_rename_rmdir : list op :=
+  clean_file_d_a ++ [Rename [4; 1] [6; 1]; Rmdir [6]].
+(* a second rename before the first one is flushed *)
+Definition w_rename_again : list op :=
+  clean_file_d_a ++ [Rename [4; 1] [4; 2]; Rename [4; 2] [2]; SyncDir []; Exists [2]].
+(* a rename the crate gets right: data synced, same directory, left alone until sync_dir *)
+Definition w_rename_clean : list op :=
+  clean_file_d_a ++ [Rename [4; 1] [4; 2]; Slurp [4; 2]; SyncDir [4]; Slurp [4; 2]; Exists [4; 1];
+                     O_RW 1 [4; 2]; WriteAt 1 1 [88] false; Slurp [4; 2]].
+
 Definition impl_out (l : list op) (k : nat) : out := nth k (snd (run (init_world 0) l)) ONoSlot.
 Definition spec_out (l : list op) (k : nat) : out := nth k (snd (srun init_sworld l)) ONoSlot.
 
@@ -142,6 +160,24 @@ Lemma rename_dir_refuted_lemma :
   spec_out w_rename_dir 4 = OErr ENOENT /\ impl_out w_rename_dir 4 = OFile 1 /\
   spec_out w_rename_dir 5 = ODir /\ impl_out w_rename_dir 5 = OFile 0.
 Proof. vm_compute. repeat split; reflexivity. Qed.
+
+Lemma rename_cross_resurrect_refuted_lemma :
+  spec_out w_rename_cross_resurrect 8 = OBool false /\ impl_out w_rename_cross_resurrect 8 = OBool false /\
+  spec_out w_rename_cross_resurrect 10 = OBool false /\ impl_out w_rename_cross_resurrect 10 = OBool true.
+Proof. vm_compute. repeat split; reflexivity. Qed.
+
+Lemma rename_rmdir_refuted_lemma :
+  spec_out w_rename_rmdir 8 = OErr ENOTEMPTY /\ impl_out w_rename_rmdir 8 = OOk.
+Proof. vm_compute. auto. Qed.
+
+Lemma rename_again_refuted_lemma :
+  spec_out w_rename_again 10 = OBool true /\ impl_out w_rename_again 10 = OBool false.
+Proof. vm_compute. auto. Qed.
+
+Lemma rename_clean_example_lemma :
+  Forall2 obs_ok (snd (srun init_sworld w_rename_clean)) (snd (run (init_world 0) w_rename_clean)) /\
+  impl_out w_rename_clean 14 = OBytes [65; 88].
+Proof. vm_compute. split; [repeat constructor|reflexivity]. Qed.
 
 Lemma stale_handle_refuted_lemma :
   in_class KStaleHandle w_stale_handle = true /\
